@@ -476,21 +476,27 @@ ADDED5 = {
 
 ADDED6 = {
     "C01": "Review round 2: remove_handler RH1 / replace_handler RP1, get_event_and_condition_from_string G1 / G2 (the "
-           "parsed event name keys the registration). Reports C01-1 .. C01-4 (queue-event callback order, handlers removed "
-           "before their turn, events dropped at post time) are candidates only: DESIGN 9.5.",
+           "parsed event name keys the registration). Known findings F-C01-a / -b / -c (queue-event callback before the "
+           "transitively posted events, queue event dispatched out of its slot, event dropped at post time): native "
+           "histories; the deductive clauses D1-D6 cover the plain dispatch loop.",
     "C04": "Review round 2: handle_mechanical_eject_during_idle L4b (defect eca30e1 repaired), balance set BP1-BP3. Known "
            "findings F-C04-b (two sources, one free slot) and F-C04-c (double eject with a queued eject): native histories.",
     "C05": "Review round 2: native histories of mechanical ejects from idle (defects cbb5204, f274300 repaired; bounded). "
            "Known finding F-C05-a (a player-controlled eject has no timeout).",
     "C06": "Review round 2: _start_game G4b and _run L1b (defects 95b5846, 1de68c7 repaired). Known finding F-C06-a (a "
            "player added after the rotation back to player 1 gives that player an extra ball).",
-    "C08": "Review round 2: _pulse_now PN0 (pulse(0) never holds the coil; defect 463a35a repaired), CoilPlayer.play CP1.",
+    "C08": "Review round 2: _pulse_now PN0 (pulse(0) never holds the coil; defect 463a35a repaired), CoilPlayer.play CP1, "
+           "Driver.enable EN3 / disable DS2 (a postponed enable does not outlive the disable; defect 01a0404 repaired).",
     "C10": "Review round 2: SoftwareEosRepulseManager under contract (class invariant SE0, SE3-SE5; defect 93358a5 "
-           "repaired), clear_hw_rule PC4.",
-    "C12": "Review round 2: nan rejected by every ranged validator (native history; defect 63f6616 repaired). Known finding "
-           "F-C12-c (time strings one ms short through float truncation).",
+           "repaired), clear_hw_rule PC4. Known finding F-C10-a (a tilt while no ball is in play leaves the next ball "
+           "tilted with live flippers; native history).",
+    "C12": "Review round 2: nan rejected by every ranged validator (native history; defect 63f6616 repaired); elements "
+           "without settings in lists / dicts of sub-configs validated against the sub-spec (native history; defect 9478d53 "
+           "repaired). Known finding F-C12-c (time strings one ms short through float truncation).",
     "C14": "Review round 2: reader RD1, SA2. Known findings F-C14-b (an unrelated frame cancels the retry) and F-C14-c "
-           "(exhausted retries wedge the channel): native histories; W3 holds under its stated rely.",
+           "(exhausted retries wedge the channel): native histories; W3 holds under its stated rely. F-C14-d (a non-UTF-8 "
+           "byte ends the FAST reader): parse_incoming_raw_bytes restated from the property (raises nothing), refuted, "
+           "re-proved for ignore_decode_errors.",
     "C15": "Review round 2: _writing_thread D3 (a failing snapshot does not end the thread; defect 5ab3294 repaired). Known "
            "finding F-C15-b (the writer thread is not joined at shutdown).",
     "C19": "Review round 2: known finding F-C19-c (the payload marker inside a JSON-mode value breaks the framing; native "
